@@ -42,7 +42,8 @@ Theorem c20_no_unjustified_submission : forall c tr1 tr2 t sn sf,
     find_task (pool s1) t = Some p /\ find_inst (c_insts c) t = Some i /\
     valid_id c t /\ p_status p = Preparing /\
     (p_manual p = true \/
-     forall e, In e (i_pre i) -> bx_holds (fun k => In (EOutput (fst k) (snd k)) tr1) e).
+     forall e, In e (i_pre i) ->
+       bx_holds (fun k => emitted tr1 k \/ In k (p_forced p)) e).
 Proof. exact submit_only_when_satisfied. Qed.
 
 (* "No job is launched twice under the same submit number" is FALSE of the
@@ -63,7 +64,7 @@ Definition c20_witness : list event :=
     EState C01.a Preparing false false false; ESubmit C01.a 1%nat;
     ECrash;
     ERestore {| v_id := C01.a; v_status := Waiting; v_held := false; v_queued := false; v_runahead := true;
-                v_flows := [1%nat]; v_sat := []; v_outs := []; v_sn := 0%nat |};
+                v_flows := [1%nat]; v_sat := []; v_outs := []; v_sn := 0%nat; v_fsat := [] |};
     EAdopt [] None 1 None; ERestartDone;
     ELimit (Some 1); EState C01.a Waiting false false false; EState C01.a Waiting false true false;
     EReleaseBegin; EState C01.a Waiting false false false; ERelease [C01.a];
